@@ -1519,7 +1519,20 @@ func (k *cleanCtx) why0(v ssa.Value, depth int) string {
 			bad := ""
 			allInstrs(f, func(in ssa.Instruction) {
 				if ret, ok := in.(*ssa.Return); ok && len(ret.Results) > 0 {
-					if w := k.why(retVal(ret, 0), depth+1); w != "" {
+					rv := retVal(ret, 0)
+					// `if q == "" { return q }`: what is returned there is the empty string
+					knownEmpty := false
+					for _, fa := range factsAt(ret.Block()) {
+						if bo, isBo := fa.cond.(*ssa.BinOp); isBo && bo.X == rv {
+							if e, isS := constString(bo.Y); isS && e == "" && ((bo.Op == token.EQL && fa.pol) || (bo.Op == token.NEQ && !fa.pol)) {
+								knownEmpty = true
+							}
+						}
+					}
+					if knownEmpty {
+						return
+					}
+					if w := k.why(rv, depth+1); w != "" {
 						bad = "result of " + FuncName(f) + ": " + w
 					}
 				}
